@@ -84,7 +84,8 @@ META = {
                     'the BSR container handling (canonical-format flags, index dtype) is scipy code, not modelled; the conversion BSR -> CSR used for '
                     'block=False and by the energy measure is modelled (Spmm.bsrToCsr, theorems bsr_tocsr_row / bsr_tocsr_entries / bsr_tocsr_meaning) '
                     'and its arrays are compared with A.tocsr() exactly in part F; the parts A / B models still start from the converted CSR arrays'],
-    'partial': [],
+    'partial': ['E59 (py_strength_*): theorems about the definition GENERATED from the Python part of classical_strength_of_connection (CSR vs BSR branch, block flag, norm selection, the 1e-16 clean-up and its target array, kernel call, assembly; numerical work abstracted as events) hold on the FINITE grid cGrid (csr / bsr / csc x block size 1, 2 x block flag x abs / min / fro / unknown norm), kernel evaluated; outside the grid the exact trace comparison with the real function on mock objects (part y) decides'],
+    'trusted_extra': ['harness/py2lean3_aggstr.py on top of harness/py2lean2.py (Python-AST -> Lean translator, second mode, driver `aggstr`: comparisons / subscripts / abs / += of opaque arrays as events), lean/PyamgV/Model/ExtPy3AggstrRt.lean (+ ExtPy2Rt.lean, ExtPyRt.lean: CPython semantics on the PyVal universe and the event semantics of opaque objects) and harness/extpy3_aggstr.py (+ extpy2.py: mock objects implementing the same event semantics in Python): exercised on every run by the exact comparison (result, exception class, whole trace) of the generated definitions with the REAL functions executed against the mocks (op e59_py3_call)'],
     'assumptions': ['part G (extension E44, whole evolution measure for every NullDim / k / epsilon / format / scalar type): the spectral-radius estimate is '
                     'recorded from the real call (pass-through wrapper of approximate_spectral_radius; real and positive, else the instance goes to the '
                     'spec oracle only); observed through pass-through wrappers: the arguments and the result of amg_core.evolution_strength_helper, the '
@@ -2691,6 +2692,16 @@ def run(ctx):
     run_part_f(ctx, ctx.scale(45, 2400), ctx.scale(90, 3000))
     run_part_g(ctx, ctx.scale(160, 9000))
     part_c(ctx, ctx.scale(240, 13000), ctx.scale(360, 19000))
+    part_y(ctx)
+
+
+def part_y(ctx):
+    """extension E59: the Python part of classical_strength_of_connection as GENERATED from the working tree
+    (harness/py2lean3_aggstr.py, Generated/PyLogic3_aggstr.lean) vs the real function executed against mock objects
+    (harness/extpy3_aggstr.py): result, exception class and the whole trace compared exactly (last: the random streams of
+    the parts above are unchanged)"""
+    import extpy3_aggstr
+    extpy3_aggstr.part_strength(ctx, ctx.scale(120, 5000))
 
 
 def search(ctx):
